@@ -31,13 +31,21 @@ mod tree;
 mod wrappers;
 
 mod ops;
+#[cfg(not(no_ops_cps))]
 mod ops_cps;
+#[cfg(not(no_ops_macros))]
 mod ops_macros;
+#[cfg(not(no_ops_prover))]
 mod ops_prover;
+#[cfg(not(no_ops_py))]
 mod ops_py;
+#[cfg(not(no_ops_reason))]
 mod ops_reason;
+#[cfg(not(no_ops_rules))]
 mod ops_rules;
+#[cfg(not(no_ops_segment))]
 mod ops_segment;
+#[cfg(not(no_ops_tree))]
 mod ops_tree;
 mod verif_hook;
 
